@@ -2715,6 +2715,11 @@ namespace bloch::compiler {
     void SemanticAnalyser::visit(VoidType&) {}
 
     void SemanticAnalyser::visit(Parameter& node) {
+        // Checked here so that it holds for functions, methods and constructors alike.
+        if (node.type && typeFromAst(node.type.get()).value == ValueType::Void) {
+            throw BlochError(ErrorCategory::Semantic, node.line, node.column,
+                             "parameters cannot have type 'void'");
+        }
         if (node.type)
             node.type->accept(*this);
     }
